@@ -817,6 +817,7 @@ struct Explorer
             json r = execute(nav, b, ops[oi]);
             r["k"] = k;
             r["j"] = k + 1;
+            r["n"] = k;  // length of the history (operations since Init)
             out(r);
             ++calls;
             if (kid < nd.kids.size() && nd.kids[kid].first == oi)
@@ -842,6 +843,7 @@ int run_explore(Geo const& geo, int depth, long maxcalls, verif::NdjsonWriter& o
         json r = execute(nav, a, rt.first);
         r["k"] = 0;
         r["j"] = 1;
+        r["n"] = 0;
         out(r);
         ex.visit(rt.second, 1);
     }
@@ -868,6 +870,7 @@ int run_walk(Geo const& geo, unsigned long seed, int nwalks, int len, verif::Ndj
         json r = execute(nav, a, o);
         r["k"] = 0;
         r["j"] = 1;
+        r["n"] = 0;
         out(r);
         int mode = pick(4);  // 0: straight ray; otherwise random protocol walk
         for (int step = 0; step < len && a.ph != 'O'; ++step)
@@ -926,6 +929,7 @@ int run_walk(Geo const& geo, unsigned long seed, int nwalks, int len, verif::Ndj
             json rr = execute(nav, a, chosen);
             rr["k"] = 1;
             rr["j"] = 1;
+            rr["n"] = step + 1;
             out(rr);
             ++calls;
         }
@@ -940,6 +944,7 @@ int run_replay(Geo const& geo, json const& script, verif::NdjsonWriter& out)
     Proto a;
     a.ph = 'O';
     bool started = false;
+    int nops = 0;
     for (auto const& s : script)
     {
         Op o;
@@ -968,6 +973,7 @@ int run_replay(Geo const& geo, json const& script, verif::NdjsonWriter& out)
         json r = execute(nav, a, o);
         r["k"] = started && o.e != "Init" ? 1 : 0;
         r["j"] = 1;
+        r["n"] = nops++;
         out(r);
         started = true;
     }
